@@ -196,3 +196,99 @@ pub fn vault_amount(store: &Store, k: &Pubkey) -> u64 {
         .map(|a| crate::fixtures::token_amount(&a.data))
         .unwrap_or(0)
 }
+
+/// Names of the bank fields that differ between two versions of a bank (field-level byte diff).
+pub fn bank_changed_fields(a: &Bank, b: &Bank) -> std::collections::BTreeSet<&'static str> {
+    use bytemuck::bytes_of;
+    let mut s = std::collections::BTreeSet::new();
+    macro_rules! cmp {
+        ($name:expr, $x:expr, $y:expr) => {
+            if bytes_of(&$x) != bytes_of(&$y) {
+                s.insert($name);
+            }
+        };
+    }
+    cmp!("mint", a.mint, b.mint);
+    cmp!("mint_decimals", a.mint_decimals, b.mint_decimals);
+    cmp!("group", a.group, b.group);
+    cmp!("asset_share_value", a.asset_share_value, b.asset_share_value);
+    cmp!("liability_share_value", a.liability_share_value, b.liability_share_value);
+    cmp!("liquidity_vault", a.liquidity_vault, b.liquidity_vault);
+    cmp!("insurance_vault", a.insurance_vault, b.insurance_vault);
+    cmp!("fee_vault", a.fee_vault, b.fee_vault);
+    if (a.liquidity_vault_bump, a.liquidity_vault_authority_bump, a.insurance_vault_bump, a.insurance_vault_authority_bump, a.fee_vault_bump, a.fee_vault_authority_bump)
+        != (b.liquidity_vault_bump, b.liquidity_vault_authority_bump, b.insurance_vault_bump, b.insurance_vault_authority_bump, b.fee_vault_bump, b.fee_vault_authority_bump)
+    {
+        s.insert("vault_bumps");
+    }
+    cmp!("collected_insurance_fees_outstanding", a.collected_insurance_fees_outstanding, b.collected_insurance_fees_outstanding);
+    cmp!("collected_group_fees_outstanding", a.collected_group_fees_outstanding, b.collected_group_fees_outstanding);
+    cmp!("collected_program_fees_outstanding", a.collected_program_fees_outstanding, b.collected_program_fees_outstanding);
+    cmp!("total_liability_shares", a.total_liability_shares, b.total_liability_shares);
+    cmp!("total_asset_shares", a.total_asset_shares, b.total_asset_shares);
+    cmp!("last_update", a.last_update, b.last_update);
+    let (ca, cb) = (&a.config, &b.config);
+    cmp!("config.asset_weight_init", ca.asset_weight_init, cb.asset_weight_init);
+    cmp!("config.asset_weight_maint", ca.asset_weight_maint, cb.asset_weight_maint);
+    cmp!("config.liability_weight_init", ca.liability_weight_init, cb.liability_weight_init);
+    cmp!("config.liability_weight_maint", ca.liability_weight_maint, cb.liability_weight_maint);
+    cmp!("config.deposit_limit", ca.deposit_limit, cb.deposit_limit);
+    cmp!("config.interest_rate_config", ca.interest_rate_config, cb.interest_rate_config);
+    if ca.operational_state != cb.operational_state {
+        s.insert("config.operational_state");
+    }
+    if ca.oracle_setup != cb.oracle_setup {
+        s.insert("config.oracle_setup");
+    }
+    cmp!("config.oracle_keys", ca.oracle_keys, cb.oracle_keys);
+    cmp!("config.borrow_limit", ca.borrow_limit, cb.borrow_limit);
+    if ca.risk_tier != cb.risk_tier {
+        s.insert("config.risk_tier");
+    }
+    cmp!("config.asset_tag", ca.asset_tag, cb.asset_tag);
+    cmp!("config.config_flags", ca.config_flags, cb.config_flags);
+    cmp!("config.total_asset_value_init_limit", ca.total_asset_value_init_limit, cb.total_asset_value_init_limit);
+    cmp!("config.oracle_max_age", ca.oracle_max_age, cb.oracle_max_age);
+    cmp!("config.oracle_max_confidence", ca.oracle_max_confidence, cb.oracle_max_confidence);
+    cmp!("config.fixed_price", ca.fixed_price, cb.fixed_price);
+    if (ca._pad0, ca._pad1, ca._padding0, ca._padding1) != (cb._pad0, cb._pad1, cb._padding0, cb._padding1) {
+        s.insert("config.padding");
+    }
+    let fd = a.flags ^ b.flags;
+    if fd & 0b11 != 0 {
+        s.insert("flags.emissions");
+    }
+    if fd & (1 << 2) != 0 {
+        s.insert("flags.permissionless_bad_debt");
+    }
+    if fd & (1 << 3) != 0 {
+        s.insert("flags.freeze_settings");
+    }
+    if fd & (1 << 4) != 0 {
+        s.insert("flags.close_enabled");
+    }
+    if fd & (1 << 5) != 0 {
+        s.insert("flags.tokenless_allowed");
+    }
+    if fd & (1 << 6) != 0 {
+        s.insert("flags.tokenless_complete");
+    }
+    if fd & !0x7f != 0 {
+        s.insert("flags.other");
+    }
+    cmp!("emissions_rate", a.emissions_rate, b.emissions_rate);
+    cmp!("emissions_remaining", a.emissions_remaining, b.emissions_remaining);
+    cmp!("emissions_mint", a.emissions_mint, b.emissions_mint);
+    cmp!("emode", a.emode, b.emode);
+    cmp!("fees_destination_account", a.fees_destination_account, b.fees_destination_account);
+    cmp!("cache", a.cache, b.cache);
+    cmp!("lending_position_count", a.lending_position_count, b.lending_position_count);
+    cmp!("borrowing_position_count", a.borrowing_position_count, b.borrowing_position_count);
+    cmp!("integration_acc_1", a.integration_acc_1, b.integration_acc_1);
+    cmp!("integration_acc_2", a.integration_acc_2, b.integration_acc_2);
+    cmp!("integration_acc_3", a.integration_acc_3, b.integration_acc_3);
+    if (a._pad0, a._pad1, a._pad2, a._padding_0, a._padding_1) != (b._pad0, b._pad1, b._pad2, b._padding_0, b._padding_1) {
+        s.insert("padding");
+    }
+    s
+}
